@@ -1,6 +1,6 @@
 """C01 — csvdump reproduces every on-disk block, tx, input and output field exactly."""
 import struct
-from .. import bb, chain as K, gen_chain as GC
+from .. import bb, chain as K, gen_chain as GC, gen_layout as GL
 
 NAMESPACE = "Rbp.Props.C01"
 REQUIRED = ["readTx_encTx", "txid_preimage_is_stripped", "readBlock_encBlock", "header_bytes", "compactSize_roundtrip"]
@@ -81,11 +81,21 @@ def correspondence(ctx):
         coin = K.COINS[i % 8]
         n = r.randrange(2, 12 if not ctx.thorough() else 40)
         blocks = GC.gen_chain(r, coin, n, max_txs=r.choice([1, 4, 12]), max_io=r.choice([2, 4, 8]), extreme_values=True)
-        s = K.Scenario(coin=coin, callback="csvdump")
-        GC.simple_layout(s, blocks, per_file=r.choice([None, 1, 3, 5]))
+        if i % 3 == 1:
+            # physical order different from the height order, files larger than the 32 KiB read buffer (the stored length
+            # prefix of every block must still be the one in front of that block)
+            blocks[1].txs.append(K.Tx([(GC.rb(r, 32), 0, GC.rb(r, 40000), 1)], [(5, GC.rb(r, 30000))]))
+            prev = blocks[1].hash()
+            for b in blocks[2:]:
+                b.prev = prev
+                prev = b.hash()
+            s = GL.layout(r, coin, blocks, callback="csvdump")
+        else:
+            s = K.Scenario(coin=coin, callback="csvdump")
+            GC.simple_layout(s, blocks, per_file=r.choice([None, 1, 3, 5]))
         if r.random() < 0.4:
             s.verify, s.start = True, 1
-        s.meta = {"i": i}
+        s.meta = dict(s.meta, i=i)
         scns.append(s)
     # boundary blocks inside a chain (heights 1..)
     for coin in ("bitcoin", "dogecoin"):
